@@ -37,24 +37,40 @@ inspected all the same ( .../source_after_failure/... ).
 Step kinds (B = batch shape of the model the step is applied to, m fantasy points, f fantasies):
   same   Xf B x m x d,        yf B x m          bcast  Xf m x d (no batch), yf B x m   (only len(B) == 1)
   shared Xf B x m x d,        yf f x B x m      per    Xf f x B x m x d,    yf f x B x m
+  dup    like 'same' with Xf = the first m training inputs (repeated measurements)
+  shared_b1  Xf 1 x m x d, yf f x 1 x m (x T): the form test/examples/test_derivative_gp_fantasy.py uses (multitask only)
 (multitask: yf ... x m x T).  FixedNoise: noise= has the shape of yf; 'shared_noise1' passes an un-batched noise (m,)
 together with shared inputs.
 
 Bound: n0 = 5 (quick) / 7 (thorough) training points, m in {1, 2, 3}, f in {2, 3}, t = 3 test points (un-batched, and
-batched per element for one configuration per family), d = 1 (quick), d in {1, 2} (thorough), model batch shapes () and
-(2,), sequences of 1..3 steps, fast_pred_var x detach_test_caches (grad mode on, so that the setting has an effect) for
-the dense families; families: Gaussian, FixedNoise (with / without learn_additional_noise), multitask (MultitaskKernel +
-MultitaskGaussianLikelihood, T = 2), derivative GP (RBFKernelGrad, T = d + 1), KISS-GP (GridInterpolationKernel, RBF and
-Matern-1/2 base kernels, grid_size 16 on [0, 1], under no_grad, plus one grad-mode configuration), KISS-GP + FixedNoise,
-IndependentModelList (Gaussian / FixedNoise incl. noise=[..]), SGPR / RFF (documented NotImplementedError: only "raises
-NotImplementedError and leaves the source untouched").  1 (quick) / 3 (thorough) random draws of data and hyper-parameters.
+batched per element for one configuration per family), d in {1, 2} (quick: d = 2 runs a reduced list), model batch shapes
+() and (2,) (batched hyper-parameters, and batched data with shared hyper-parameters), sequences of 1..3 steps incl. two
+batch-expanding steps in a row, fast_pred_var x detach_test_caches (grad mode on, so that the setting has an effect) for
+the dense families, plus: the source first predicted under the OTHER fast_pred_var setting, and max_eager_kernel_size(1)
+(lazily evaluated joint covariance).  Families: Gaussian (Scale(RBF) + ConstantMean, Scale(Matern-3/2) + LinearMean),
+FixedNoise (with / without learn_additional_noise), multitask (MultitaskKernel + MultitaskGaussianLikelihood, T = 2,
+model batch () and (2,)), batch-independent multitask (from_batch_mvn), derivative GP (RBFKernelGrad, T = d + 1), KISS-GP
+(GridInterpolationKernel, RBF and Matern-1/2 base kernels, grid_size 16 on [0, 1] / 8 x 8 on [0, 1]^2, under no_grad,
+plus one grad-mode configuration), KISS-GP + FixedNoise, IndependentModelList (Gaussian / FixedNoise incl. noise=[..]),
+SGPR / RFF (documented NotImplementedError: only "raises NotImplementedError and leaves the source untouched").
+1 (quick) / 3 (thorough) random draws of data and hyper-parameters.
 
-Tolerances: |got - want|_max <= 1e-6 * max(|want|_max, 1e-3) everywhere (float64; all matrices have N <= 16 and noise
+Tolerances: |got - want|_max <= 1e-6 * max(|want|_max, 1e-3) everywhere (float64; all matrices have N <= 20 and noise
 >= 0.04, condition numbers <= 1e4, no Lanczos / CG path is reached: n <= max_cholesky_size).  'untouched' comparisons
 are bitwise (torch.equal); "prediction of the source after == before" is 1e-12 absolute.  No looser tolerance is used.
+KISS-GP: the oracle is exact conditioning under the model's OWN (interpolated, SKI) kernel, i.e. the statement is read
+with "the same kernel"; the grid built from grid_bounds is float32-rounded, so W_U = I only holds to ~1e-7 (harness
+precondition: <= 3e-7, otherwise the grid-space cache checks of that configuration are listed under "skipped"); for
+d = 2 the grid-space caches are not compared (layout of the Cartesian grid undocumented), predictions are.
+caches/mean_cache compares VALUES with spurious unit batch dimensions removed; caches/mean_cache_shape reports a carried
+cache whose shape does not broadcast to that of the recomputed quantity.
+Note (not a violation of the stated equalities, reported by the author of this file): the incrementally updated mean
+cache is stored under the cache key ("mean_cache", ()) while DefaultPredictionStrategy.mean_cache reads the key
+("mean_cache", (nan_policy,)), so the fantasy strategy never uses it and recomputes the solve from the full data.
 Skipped (stated): models larger than max_cholesky_size (the Lanczos root update is a documented approximation without an
-error bound); target batch shape with two more dimensions than the inputs (documented RuntimeError); gradients through
-the fantasy model (the property speaks of values).
+error bound); target batch shape with two more dimensions than the inputs (documented RuntimeError); per-fantasy inputs
+for the batch-independent multitask model (such a model cannot be called with batched inputs at all); models with
+several input tensors; gradients through the fantasy model (the property speaks of values).
 """
 from __future__ import annotations
 
@@ -148,9 +164,6 @@ def run(tier="quick", seed=0, only=None):
         kiss = False
         K = None          # optional hooks: dense K(x1, x2) / m(x) in the layout of the model's output
         M = None
-
-    def batch_vals(B, lo, hi):
-        return U(lo, hi, *B) if len(B) else U(lo, hi, 1).squeeze(0)
 
     def data(B, n, d, T=None):
         X = U(0.02, 0.98, *B, n, d)
@@ -413,7 +426,6 @@ def run(tier="quick", seed=0, only=None):
         snap = {"ps": ps, "lik": model.likelihood, "training": model.training,
                 "state": {k: v.detach().clone() for k, v in model.state_dict().items()},
                 "ti": [t.detach().clone() for t in model.train_inputs], "tt": model.train_targets.detach().clone(),
-                "ti_obj": [t for t in model.train_inputs], "tt_obj": model.train_targets,
                 "caches": {k: dense_val(v) for k, v in getattr(ps, "_memoize_cache", {}).items()},
                 "ltt": {k: dense_val(v) for k, v in getattr(ps.lik_train_train_covar, "_memoize_cache", {}).items()},
                 "fixed": None, "pred": pred}
@@ -836,8 +848,10 @@ def run(tier="quick", seed=0, only=None):
                     run_unsupported(name, d, n0)
 
     return {"name": "C04 fantasy models vs conditioning from scratch (float64 dense oracle)", "evaluations": ev, "distinct_nontrivial": len(seen),
-            "bound": f"n0 = {n0} (+3 KISS-GP) training points, m in 1..3 fantasy points, f in 2..3 fantasies, 3 test points, d in {list(dims)}, model batch shapes () and (2,), "
-                     f"step kinds same / bcast / shared / per in sequences of 1..3 steps, fast_pred_var x detach_test_caches, {draws} draw(s); families Gaussian, FixedNoise "
-                     "(+ learned noise), multitask, derivative GP, KISS-GP (RBF / Matern-1/2, + FixedNoise), IndependentModelList, SGPR / RFF (refusal only)",
+            "bound": f"n0 = {n0} (+3 KISS-GP) training points, m in 1..3 fantasy points, f in 2..3 fantasies, 3 test points, d in {list(dims)}"
+                     f"{'' if thorough else ' (d = 2 reduced)'}, model batch shapes () and (2,), step kinds same / bcast / shared / per / dup / shared_b1 in sequences of 1..3 steps, "
+                     f"fast_pred_var x detach_test_caches (+ source predicted under the other fast_pred_var, + max_eager_kernel_size(1)), {draws} draw(s); families Gaussian, FixedNoise "
+                     "(+ learned noise), multitask (MultitaskKernel, batch-independent), derivative GP, KISS-GP (RBF / Matern-1/2, d = 1, 2, + FixedNoise, + grad mode), "
+                     "IndependentModelList, SGPR / RFF (refusal only)",
             "rule": "a case = (family, model batch shape, step sequence, settings, step, quantity); distinct by that key; tolerance 1e-6 relative to the largest reference entry",
             "samples": samples, "violations": violations, "skipped": skipped, "wall_s": round(time.time() - t0, 2)}
